@@ -77,8 +77,129 @@ pub ghost struct HunkLineSpec {
     pub line: Seq<u8>,
     pub rest: Seq<u8>,
 }
-/// result of `parse_hunk_line` on these bytes, None for an error.
-pub uninterp spec fn spec_hunk_line(input: Seq<u8>) -> Option<HunkLineSpec>;
+/// index of the first LF of `s` (meaningful when `!absent(s, 10)`)
+pub open spec fn lf_index(s: Seq<u8>) -> int {
+    choose|k: int| is_first_index(s, 10, k)
+}
+
+pub proof fn lemma_lf_index(s: Seq<u8>, k: int)
+    requires is_first_index(s, 10, k)
+    ensures lf_index(s) == k, !absent(s, 10)
+{
+    let k2 = lf_index(s);
+    assert(is_first_index(s, 10, k2));
+    if k2 < k { assert(s[k2] != 10); }
+    if k < k2 { assert(s[k] != 10); }
+}
+
+/// one text line including its LF, and what follows it; None when there is no LF
+pub open spec fn split_line_incl(s: Seq<u8>) -> Option<(Seq<u8>, Seq<u8>)> {
+    if absent(s, 10) { None } else {
+        Some((s.subrange(0, lf_index(s) + 1), s.subrange(lf_index(s) + 1, s.len() as int)))
+    }
+}
+
+pub open spec fn hunk_line_tag(ty: HunkLineType) -> u8 {
+    match ty { HunkLineType::Add => 43, HunkLineType::Remove => 45, HunkLineType::Context => 32 }
+}
+
+/// One line of a hunk body, written from the unified format (GNU diffutils manual, "Detailed Description of Unified
+/// Format"; POSIX diff -u) and GNU patch's documented leniency, NOT from the code:
+///  * the first byte says what the line is: '+' (43) added, '-' (45) removed, ' ' (32) context; the file line is the
+///    text after that byte up to and INCLUDING its LF;
+///  * patch also takes a context line that lost its leading blank: a line starting with TAB (9) is a context line and
+///    the TAB belongs to the file line; a completely empty line is the empty context line "\n";
+///  * if the NEXT line starts with '\' (92; "\ No newline at end of file", possibly localised), the file line has no
+///    terminating LF: exactly that one LF is not part of it (no other byte is dropped), and the marker line is
+///    consumed up to and including its own LF;
+///  * anything else (other first byte, end of input, a line or marker without LF) is an error.
+/// `rest` is the input after everything consumed.
+pub open spec fn spec_hunk_line(input: Seq<u8>) -> Option<HunkLineSpec> {
+    if input.len() == 0 { None } else {
+        let b = input[0];
+        let cut: Option<(HunkLineType, Seq<u8>)> =
+            if b == 43 { Some((HunkLineType::Add, input.subrange(1, input.len() as int))) }
+            else if b == 45 { Some((HunkLineType::Remove, input.subrange(1, input.len() as int))) }
+            else if b == 32 { Some((HunkLineType::Context, input.subrange(1, input.len() as int))) }
+            else if b == 9 || b == 10 { Some((HunkLineType::Context, input)) }
+            else { None };
+        match cut {
+            None => None,
+            Some((ty, text)) => match split_line_incl(text) {
+                None => None,
+                Some((line, rest)) =>
+                    if rest.len() > 0 && rest[0] == 92 {
+                        match split_line_incl(rest) {
+                            None => None,
+                            Some((_marker, rest2)) => Some(HunkLineSpec { ty: ty, line: line.drop_last(), rest: rest2 }),
+                        }
+                    } else {
+                        Some(HunkLineSpec { ty: ty, line: line, rest: rest })
+                    },
+            },
+        }
+    }
+}
+
+/// a file line as `diff` sees it: no LF except possibly as its last byte
+pub open spec fn is_file_line(l: Seq<u8>) -> bool {
+    forall|i: int| 0 <= i < l.len() - 1 ==> l[i] != 10
+}
+pub open spec fn ends_with_lf(l: Seq<u8>) -> bool { l.len() > 0 && l[l.len() - 1] == 10 }
+
+/// a "\ No newline at end of file" line in any language: starts with '\', ends at its first LF
+pub open spec fn is_marker_line(m: Seq<u8>) -> bool {
+    m.len() >= 2 && m[0] == 92 && is_first_index(m, 10, m.len() - 1)
+}
+
+/// What `diff -u` writes for the file line `l` of kind `ty`: tag byte, the line, and if the line has no LF of its own
+/// an LF plus a marker line `m`.
+pub open spec fn render_hunk_line(ty: HunkLineType, l: Seq<u8>, m: Seq<u8>) -> Seq<u8> {
+    if ends_with_lf(l) { seq![hunk_line_tag(ty)] + l } else { seq![hunk_line_tag(ty)] + l + seq![10u8] + m }
+}
+
+/// C01 "may lack a final newline", hunk-line level: reading back what diff writes for a file line gives exactly that
+/// file line (byte for byte, with or without final LF), its kind, and the untouched remainder.  The side condition on
+/// `rest` is the format's own: after a line WITH its LF the next line must not start with '\' (it would be read as a
+/// marker; diff never writes one there).
+pub proof fn lemma_hunk_line_round_trip(ty: HunkLineType, l: Seq<u8>, m: Seq<u8>, rest: Seq<u8>)
+    requires
+        is_file_line(l),
+        ends_with_lf(l) ==> (rest.len() == 0 || rest[0] != 92),
+        !ends_with_lf(l) ==> is_marker_line(m),
+    ensures
+        spec_hunk_line(render_hunk_line(ty, l, m) + rest) == Some(HunkLineSpec { ty: ty, line: l, rest: rest }),
+{
+    let tag = hunk_line_tag(ty);
+    let input = render_hunk_line(ty, l, m) + rest;
+    assert(input[0] == tag);
+    if ends_with_lf(l) {
+        let text = input.subrange(1, input.len() as int);
+        assert(text =~= l + rest);
+        assert(is_first_index(text, 10, l.len() - 1));
+        lemma_lf_index(text, l.len() - 1);
+        assert(text.subrange(0, l.len() as int) =~= l);
+        assert(text.subrange(l.len() as int, text.len() as int) =~= rest);
+    } else {
+        let text = input.subrange(1, input.len() as int);
+        assert(text =~= l + seq![10u8] + m + rest);
+        assert(is_first_index(text, 10, l.len() as int)) by {
+            assert forall|j: int| 0 <= j < l.len() implies text[j] != 10 by {
+                if j < l.len() - 1 { assert(l[j] != 10); }
+            }
+        }
+        lemma_lf_index(text, l.len() as int);
+        let line = text.subrange(0, l.len() as int + 1);
+        let r1 = text.subrange(l.len() as int + 1, text.len() as int);
+        assert(line =~= l + seq![10u8]);
+        assert(line.drop_last() =~= l);
+        assert(r1 =~= m + rest);
+        assert(r1[0] == 92);
+        assert(is_first_index(r1, 10, m.len() - 1));
+        lemma_lf_index(r1, m.len() - 1);
+        assert(r1.subrange(m.len() as int, r1.len() as int) =~= rest);
+    }
+}
 
 /// "N" or "N,M" (unified diff range): the count defaults to 1 when ",M" is missing.
 pub open spec fn line_and_count_spec(input: Seq<u8>) -> Option<(Seq<u8>, (usize, usize))> {
